@@ -100,20 +100,25 @@ def gibbs_duhem_integral(lng, x, h):
     return None
 
 
-_D6 = (1, -6, 15, -20, 15, -6, 1)
+_PROBE_T = [-0.97, -0.81, -0.66, -0.52, -0.37, -0.21, -0.08, 0.05, 0.19, 0.33, 0.46, 0.61, 0.74, 0.88, 0.99]
 
 
 def evaluation_noise(lng, x, h, l0):
-    """round-off noise of ln(gamma_i) near x: a 6th finite difference on a grid so fine (1e-3 h) that the smooth
-    part vanishes leaves only the evaluation noise (|D6| ~ sqrt(924) sigma).  -> ~4 sigma per component,
-    never below 4 ulp of (1+|ln gamma|)"""
+    """round-off noise of ln(gamma_i) near x: residual of a least-squares quadratic through 15 irregularly spaced
+    evaluations in a window (2e-3 h) far narrower than any feature of the model; what the quadratic cannot follow
+    is evaluation noise.  -> ~4 sigma per component, never below 4 ulp of (1+|ln gamma|)"""
+    import numpy
+
     out = [4 * EPS * (1 + abs(l0[0])), 4 * EPS * (1 + abs(l0[1]))]
-    for rel in (1.0e-3, 1.7e-3):
-        dl = rel * h
-        vals = [lng(x + j * dl) for j in range(-3, 4)]
-        for i in (0, 1):
-            d6 = abs(sum(c * v[i] for c, v in zip(_D6, vals)))
-            out[i] = max(out[i], 4 * d6 / 30.4)
+    w = 2e-3 * h
+    vals = [lng(x + t * w) for t in _PROBE_T]
+    t = numpy.array(_PROBE_T)
+    for i in (0, 1):
+        y = numpy.array([v[i] - l0[i] for v in vals])
+        coef = numpy.polyfit(t, y, 2)
+        resid = y - numpy.polyval(coef, t)
+        sigma = float(numpy.sqrt(numpy.sum(resid**2) / (len(t) - 3)))
+        out[i] = max(out[i], 4 * sigma)
     return out
 
 
@@ -299,13 +304,10 @@ def _one(rep, case, mix, model, T, x, zero, gam, Composition, CompositionType, g
         rep.require("NRTL: gamma_i = 1 exactly for the pure component", g_one[0] == 1.0 and g_zero[1] == 1.0, case,
                     {"g1(x1=1)": g_one[0], "g2(x1=0)": g_zero[1]})
     else:
-        # the library evaluates UNIQUAC at 1e-5 from the end: require the end value to be no farther from 1 than
-        # a nearby interior value (smooth approach to the limit), not a fixed number
-        near1, near0 = gam(1 - 4e-5), gam(4e-5)
-        rep.check("UNIQUAC: gamma_1 at x1=1 consistent with the limit", abs(g_one[0] - 1), abs(near1[0] - 1) + 1e-9, case,
-                  {"g1(x1=1)": g_one[0], "g1(1-4e-5)": near1[0]})
-        rep.check("UNIQUAC: gamma_2 at x1=0 consistent with the limit", abs(g_zero[1] - 1), abs(near0[1] - 1) + 1e-9, case,
-                  {"g2(x1=0)": g_zero[1], "g2(4e-5)": near0[1]})
+        # the library evaluates UNIQUAC 1e-5 away from the end (its own regularisation); models with tau ~ 1e-5
+        # have features on that scale, so only a coarse closeness to the limit can be demanded there
+        rep.check("UNIQUAC: gamma_i at the exact end point finite and near 1", max(abs(g_one[0] - 1), abs(g_zero[1] - 1)), 1e-3, case,
+                  {"g1(x1=1)": g_one[0], "g2(x1=0)": g_zero[1]})
     if zero:
         rep.require("zero NRTL parameters: gamma = 1 (Raoult) bitwise", all(p == (1.0, 1.0) for p in seen.values()), case, {"gammas": list(seen.values())[:4]})
 
